@@ -38,3 +38,39 @@ Proof.
   all: intros conn is_local relayed ln ld ho hc fe hz fz wm tm; unfold src_relay_endpoint_iter.
   all: destruct conn, is_local, relayed, ho, hc, fe, hz, fz, wm, tm; cbn; repeat split; intros; congruence.
 Qed.
+
+(* Round 2 of C12 (brief C12b): the model now has the origin.  One iteration of the translated loop body with
+   has_origin = has_from_client = true, from_this_endpoint = (the endpoint is the origin's), has_from_zone = (origin->FromZone
+   is set), from_this_zone = (the target zone is that zone) IS one unfolding of Replay/RlOrigin.rl_relay_zone_eps_o - in
+   particular an endpoint that is not connected leaves the iteration before any test that puts it on skippedEndpoints. *)
+From Icv Require Import Replay.RlHistory Replay.RlSize Replay.RlCompact Replay.RlOrigin.
+Local Open Scope Z_scope.
+
+Lemma src_relay_endpoint_iter_o_eq : src_relay_endpoint_iter_recognised = true ->
+  forall (oid oz z : Z) (is_local : bool) (e : rl_ep) (r : list rl_ep) (relayed ln ld : bool) (live skipped : list Z) (wm tm : bool),
+    (wm || tm = true)%bool ->
+    let org := Some (oid, oz) in
+    rl_relay_zone_eps_o org (rl_o_from_zone org z) is_local (e :: r) relayed ln ld live skipped
+    = let '(_, relayed', ln', ld', evs) :=
+        src_relay_endpoint_iter false (rl_ep_conn e) is_local relayed ln ld true true (rl_ep_id e =? oid) (0 <=? oz) (z =? oz) wm tm in
+      rl_relay_zone_eps_o org (rl_o_from_zone org z) is_local r relayed' ln' ld'
+        (live ++ (if xrl_has XrlSend evs && negb (rl_ep_sync e) then [rl_ep_id e] else []))
+        (skipped ++ (if xrl_has XrlSkip evs then [rl_ep_id e] else [])).
+Proof.
+  intro Hrec; xl_rec Hrec.
+  all: intros oid oz z is_local e r relayed ln ld live skipped wm tm Hm; cbv zeta; unfold src_relay_endpoint_iter;
+       cbn [rl_relay_zone_eps_o rl_o_from_ep rl_o_from_zone].
+  all: destruct (rl_ep_conn e), relayed, is_local, wm, tm, (rl_ep_sync e), (rl_ep_id e =? oid), (0 <=? oz), (z =? oz); try discriminate Hm;
+       cbn [negb andb orb app xrl_has existsb]; rewrite ?app_nil_r; reflexivity.
+Qed.
+
+(* an endpoint that is not connected is never skipped and never sent to, whatever the origin *)
+Lemma src_relay_endpoint_iter_away : src_relay_endpoint_iter_recognised = true ->
+  forall is_local relayed ln ld ho hc fe hz fz wm tm,
+    let '(_, relayed', _, _, evs) := src_relay_endpoint_iter false false is_local relayed ln ld ho hc fe hz fz wm tm in
+    evs = [] /\ relayed' = relayed.
+Proof.
+  intro Hrec; xl_rec Hrec.
+  all: intros is_local relayed ln ld ho hc fe hz fz wm tm; unfold src_relay_endpoint_iter.
+  all: destruct is_local; cbn; split; reflexivity.
+Qed.
